@@ -212,6 +212,24 @@ pub fn judge(_cfg: &Config, case: &Case, l: &mut Local) {
                         true,
                         hash_bytes2(code, text),
                     );
+                    // the full-message route and the text-block route of the same typed API: what one takes the
+                    // other takes, with the same fields (an input normalisation on one route only shows here)
+                    if let Some(b4) = crate::corpus::block4_of(text)
+                        && let Ok(pb) = guard(|| (ops.parse_b4)(&b4))
+                    {
+                        match (&typed, &pb) {
+                            (Ok(t), Ok(b)) => {
+                                if let (Ok(Ok(jt)), Ok(Ok(jb))) = (guard(|| t.body().json()), guard(|| b.json()))
+                                    && let Some(d) = first_diff(&jt, &jb)
+                                {
+                                    v(l, "parse::<T>", code, "full-route-differs-from-block4-route", format!("parse::<MT{code}>(message) and MT{code}::parse_from_block4(its text block) build different fields at {d}"), case);
+                                }
+                            }
+                            (Ok(_), Err(e)) => v(l, "parse::<T>", code, "full-route-accepts-what-block4-route-rejects", format!("parse::<MT{code}>(message) accepts a text block that parse_from_block4 rejects: {}", short(&e.to_string())), case),
+                            (Err(e), Ok(_)) if matches!(e, ParseError::InvalidFieldFormat(_) | ParseError::MissingRequiredField { .. }) => v(l, "parse::<T>", code, "full-route-rejects-what-block4-route-accepts", format!("parse::<MT{code}>(message) rejects a text block that parse_from_block4 accepts: {}", short(&e.to_string())), case),
+                            _ => {}
+                        }
+                    }
                     match (&typed, &auto) {
                         (Ok(t), Ok(a)) => {
                             // the typed accessors of the wrapper: exactly the one of the announced type answers
@@ -471,6 +489,25 @@ pub fn run(cfg: &Config) -> i32 {
                 {
                     cases.push(Case::Code { code: lay.mt.to_string(), text });
                 }
+            }
+        }
+    }
+    // hostile bodies: structural mutants of the first base of each type (terminator look-alikes, empty and
+    // blank lines inside a value, duplicated / deleted / moved fields) inside the valid envelope
+    {
+        let contents = crate::corpus::field_contents(&c);
+        let pool = crate::mutate::pool_from(&contents);
+        let mut seen = std::collections::BTreeSet::new();
+        for (mt, text) in &bases {
+            if !seen.insert(mt.clone()) {
+                continue;
+            }
+            let Some(b4) = crate::corpus::block4_of(text) else { continue };
+            let toks = tok::tokenize(&b4).fields;
+            let mut r = crate::rng::Rng::new(cfg.seed, &format!("c12-mut:{mt}"), 0);
+            for m in crate::mutate::single_mutations(&toks, &pool, &mut r, false).into_iter().filter(|m| m.kind.ends_with("-inside") || m.kind.starts_with("ends-with") || m.kind == "duplicate" || m.kind == "delete") {
+                let nb4 = format!("\n{}\n", tok::render(&m.fields, false, false));
+                cases.push(Case::Code { code: mt.clone(), text: text.replacen(b4.as_str(), &nb4, 1) });
             }
         }
     }
